@@ -123,6 +123,8 @@ def check_c08(seed, tier, root=None):
                 t.has_events
                 _ = t.events
                 return t, False
+            if mode == "allow_write called inside a plain context":
+                return t, "late"
             if mode == "plain context after allow_write and an implicit reader context":
                 t.allow_write()
                 t.has_events                                   # opens and leaves a context of its own: the permission is used up
@@ -137,7 +139,8 @@ def check_c08(seed, tier, root=None):
             raise KeyError(mode)
         refused_modes = ["no context", "allow_write without context", "read-only context", "context after a write context", "no context after a write context",
                          "context after a write context left by an exception", "no context after a failed reader", "no context after reading",
-                         "plain context after allow_write and an implicit reader context", "plain context after allow_write and a failed implicit reader"]
+                         "plain context after allow_write and an implicit reader context", "plain context after allow_write and a failed implicit reader",
+                         "allow_write called inside a plain context"]
         stored = dict(events=Tdf(base).events, emg=Tdf(base).emg)
         for mname, call in mutators(rng, stored).items():
             for mode in refused_modes:
@@ -151,7 +154,11 @@ def check_c08(seed, tier, root=None):
                 before = _sha(work)
                 raised = False
                 try:
-                    if enter:
+                    if enter == "late":
+                        with t:                        # the context was entered read-only: asking for write access now comes too late
+                            t.allow_write()
+                            call(t)
+                    elif enter:
                         with t:
                             call(t)
                     else:
@@ -204,6 +211,31 @@ def check_c08(seed, tier, root=None):
                         fails.append(_f("C08", "C08.handle_open", f"after reader {rname} in mode '{mode}' the handle of {nm} is still open", case, seed))
                     if getattr(obj, "_inside_context", False):
                         fails.append(_f("C08", "C08.handle_open", f"after reader {rname} in mode '{mode}' {nm} still believes it is inside a context", case, seed))
+        # a well-formed file with unclaimed bytes after its last block: readers leave those alone too, in every mode
+        padded = os.path.join(d, "padded.tdf")
+        for rname, call in readers().items():
+            for mode in ("allow_write without context", "write context", "read-only context", "no context"):
+                n += 1
+                case = dict(reader=rname, mode=mode + ", file with bytes after the last block")
+                open(padded, "wb").write(open(base, "rb").read() + bytes(range(40)))
+                t, o = Tdf(padded), Tdf(other)
+                before = _sha(padded)
+                try:
+                    if mode == "no context":
+                        call(t, o)
+                    elif mode == "allow_write without context":
+                        t.allow_write()
+                        call(t, o)
+                    elif mode == "read-only context":
+                        with t:
+                            call(t, o)
+                    else:
+                        with t.allow_write():
+                            call(t, o)
+                except Exception:
+                    pass
+                if _sha(padded) != before:
+                    fails.append(_f("C08", "C08.reader_modified", f"reader {rname} in mode '{mode}' changed a file that has bytes after its last block ({os.path.getsize(padded)} bytes now)", case, seed))
         # an object that has genuinely written before: its readers still never write (dates in the file made old again first,
         # so that any refreshed date shows whatever the resolution of the clock)
         for rname, call in readers().items():
@@ -425,6 +457,27 @@ def check_c17(seed, tier, root=None):
                     fails.append(_f("C17", "C17.copy_independent", "mutating the original changed the copy", case, seed))
             except Exception as e:
                 fails.append(_f("C17", "C17.copy", f"copy scenario '{scenario}' raised {e!r}", case, seed))
+        # a source reached through a symbolic link: the copy is a file of its own all the same
+        try:
+            real_src = os.path.join(d, "real_src.tdf")
+            shutil.copyfile(src, real_src)
+            lnk = os.path.join(d, "latest.tdf")
+            os.symlink(real_src, lnk)
+            n += 1
+            case = dict(op="copy", scenario="source opened through a symbolic link")
+            dst = os.path.join(d, "copy_of_link.tdf")
+            c = Tdf(lnk).copy(dst)
+            if os.path.islink(dst) or open(dst, "rb").read() != open(real_src, "rb").read():
+                fails.append(_f("C17", "C17.copy_identical", "copy of a source opened through a symbolic link is not a byte-identical regular file", case, seed))
+            h = _sha(real_src)
+            with c.allow_write() as cc:
+                cc.add_block(gen.data3d(rng, 1, 3))
+            if _sha(real_src) != h:
+                fails.append(_f("C17", "C17.copy_independent", "mutating the copy changed the original (source had been opened through a symbolic link)", case, seed))
+        except OSError:
+            pass
+        except Exception as e:
+            fails.append(_f("C17", "C17.copy", f"copy of a source opened through a symbolic link raised {e!r}", dict(op="copy", scenario="symlinked source"), seed))
         # copying a file onto itself, under whatever name: refused like any existing target, the file stays as it is
         s3 = os.path.join(d, "self.tdf")
         shutil.copyfile(src, s3)
@@ -482,13 +535,77 @@ def check_c17(seed, tier, root=None):
                     fails.append(_f("C17", "C17.open_foreign", f"{reader} on a {what} file yielded data instead of being refused", case, seed))
                 except Exception:
                     pass
+            # the same object asked again after it refused: still no data
+            t = Tdf(p)
+            for attempt in (1, 2, 3):
+                for reader in ("blocks", "has_events", "has_data3D", "__len__"):
+                    try:
+                        r = getattr(t, reader)
+                        r = r() if callable(r) else r
+                        fails.append(_f("C17", "C17.open_foreign", f"{reader} on a {what} file yielded {r!r} at access {attempt} of the same object instead of being refused", case, seed))
+                        break
+                    except Exception:
+                        pass
     finally:
         shutil.rmtree(d, ignore_errors=True)
     return dict(what="create / copy / open contracts on real paths", cases=n, label="bounded", bound="5 kinds of existing target x new/copy; 6 path names x new/copy x present/absent with a whole-directory frame; copy inside and outside a write context; 4 foreign files"), fails
 
 
+def check_c12_entries(seed, tier, root=None):
+    """C12 at the container level: reserved words of the header and of every table entry, and the bytes after the terminator
+    of every entry comment, are don't-care -- whatever they hold, the table and the blocks read the same"""
+    import struct
+    from basictdf import Tdf
+    warnings.simplefilter("ignore")
+    fails, n = [], 0
+    rng = random.Random(f"{seed}:c12entries")
+    d = tempfile.mkdtemp(prefix="verif_c12_")
+    try:
+        base = _file_with_blocks(d, rng)
+        raw0 = open(base, "rb").read()
+        nent = struct.unpack_from("<i", raw0, 20)[0]
+
+        def view(path):
+            with Tdf(path) as t:
+                ents = [(e.type.value, e.format, e.offset, e.size, e.comment, int(e.creation_date.timestamp()), int(e.last_modification_date.timestamp()), int(e.last_access_date.timestamp())) for e in t.entries]
+                blocks = [(b.type.value, b.nBytes) for b in t.blocks]
+                return ents, blocks, t.events == t.events
+        want = view(base)
+        fills = ["random", b"\xff", b"\x80", b"\x81", b"\x00\x00\x00\x80", b"\x7f"] if tier != "quick" else ["random", b"\xff", b"\x00\x00\x00\x80", b"\x81"]
+        for fill in fills:
+            n += 1
+            raw = bytearray(raw0)
+
+            def put(lo, hi):
+                for k in range(lo, hi):
+                    raw[k] = rng.randrange(256) if fill == "random" else fill[(k - lo) % len(fill)]
+            put(24, 32)
+            put(44, 64)
+            for i in range(nent):
+                b0 = 64 + 288 * i
+                put(b0 + 28, b0 + 32)
+                z = raw0.index(b"\x00", b0 + 32, b0 + 288)
+                put(z + 1, b0 + 288)
+            p = os.path.join(d, "scrambled.tdf")
+            open(p, "wb").write(bytes(raw))
+            case = dict(fill=fill if isinstance(fill, str) else fill.hex())
+            try:
+                got = view(p)
+                if got != want:
+                    fails.append(_f("C12", "C12.entry_dontcare", f"reserved / trailing bytes of the header and table entries ({case['fill']}) changed what is read: "
+                                    f"{[a for a, b in zip(got[0], want[0]) if a != b][:2]}", case, seed))
+            except Exception as e:
+                fails.append(_f("C12", "C12.entry_dontcare", f"with reserved / trailing bytes of the header and table entries set to {case['fill']} the file can no longer be read: {e!r}", case, seed))
+    finally:
+        shutil.rmtree(d, ignore_errors=True)
+    return dict(what="don't-care bytes of header and table entries scrambled on a real file", cases=n, label="bounded", bound=f"{len(fills)} fill patterns x every reserved word / comment tail"), fails
+
+
+run_c12_entries = check_c12_entries
+
+
 def replay(recipe, repo_root):
-    fn = check_c08 if recipe["prop"] == "C08" else check_c17
+    fn = check_c08 if recipe["prop"] == "C08" else (check_c12_entries if recipe["prop"] == "C12" else check_c17)
     st, fails = fn(recipe["seed"], "thorough")
     return [f for f in fails if f["repro"].get("case") == recipe.get("case")] or fails[:1]
 
